@@ -25,7 +25,7 @@ func c07Compile(c *Ctx) {
 	if r.Histogram == nil {
 		r.Histogram = map[string]int{}
 	}
-	r.Rule += " || compile-time half: (a) generated calls (1-3 typed parameters, bindings built type-directed with near-misses and references into pipeline inputs / a producer call made singly, array-mapped or map-mapped): accept/reject of the real compiler vs the model's checkCall, error location, and for accepted reference-free literals real EncodeJSON+IsValidJson vs the model's eval/valid; (b) every single-point ill-typed mutation (by construction, double-checked by the model) of every single-line binding of accepted programs (GenProgram, repo *.mro, corpus) must be rejected with an error located at the binding or its call; non-trivial (a) = case has a reference, a composite literal or a split"
+	r.Rule += " || compile-time half: (a) generated calls (1-3 typed parameters, bindings built type-directed with near-misses and references into pipeline inputs / a producer call made singly, array-mapped or map-mapped): accept/reject of the real compiler vs the model's checkCall, error location, and for accepted reference-free literals real EncodeJSON+IsValidJson vs the model's eval/valid; (b) every single-point ill-typed mutation (by construction, double-checked by the model) of every single-line binding of accepted programs (GenProgram, repo *.mro, corpus) must be rejected with an error located at the binding or its call; targeted streams (every quick run, counts in the histogram as stream_*): depth = references between all 64 ordered pairs of nestings (T, T[], T[][], map<T>, map<T[]>, map<T[][]>, map<T>[], map<T[]>[]) of the same base type, bound plainly / via a call output / as array element / as map value / via split over arrays and typed maps / via struct members; splits = map calls with 2..4 split arguments in every order over {reference of unknown length, reference into a mapped call, literal of matching / other length, other key set, other kind}; untyped = references at depth 1..3 inside literals for untyped map parameters (map, map[], map[][], struct member, array of structs, map of structs); every call accepted by both is also invoked (top-level call with conforming inputs + MakePipelineCallGraph must succeed), and a call the model rejects but the compiler accepts is invoked too (failure = concrete property violation); non-trivial (a) = case has a reference, a composite literal or a split"
 	c07Corpus(c)
 	c07Witnesses(c)
 	n := 2500
@@ -33,6 +33,7 @@ func c07Compile(c *Ctx) {
 		n = 40000
 	}
 	c07PairCorrespondence(c, n)
+	c07Streams(c)
 	c07MutationOracle(c)
 }
 
@@ -186,9 +187,11 @@ func c07Compat(dst, src *c17Ty) bool {
 // ---- expression generator: type-directed, with near-misses ----
 
 type c07Gen struct {
-	rng  *rand.Rand
-	env  *c07Env
-	miss int // 1/miss of the nodes are near-misses (0: none)
+	rng         *rand.Rand
+	env         *c07Env
+	miss        int  // 1/miss of the nodes are near-misses (0: none)
+	nestedRef   bool // a reference was put inside an untyped map literal
+	sameBaseRef bool // a reference of the same base type but different nesting was chosen
 }
 
 var c07Keys = []string{"a", "b", "k1", "x y", "a/b", "..", "z"}
@@ -207,6 +210,19 @@ func (g *c07Gen) ref(t *c17Ty) *c07Exp {
 	}
 	if len(good) > 0 && !g.near() {
 		return good[g.rng.Intn(len(good))].e
+	}
+	// near-miss of choice: same base type, different array / map nesting
+	if g.miss > 0 && g.rng.Intn(2) == 0 {
+		var sameBase []c07Cand
+		for _, cd := range g.env.cands {
+			if cd.t != nil && c07BaseName(cd.t) == c07BaseName(t) && cd.t.enc() != t.enc() {
+				sameBase = append(sameBase, cd)
+			}
+		}
+		if len(sameBase) > 0 {
+			g.sameBaseRef = true
+			return sameBase[g.rng.Intn(len(sameBase))].e
+		}
 	}
 	if g.rng.Intn(3) == 0 {
 		// non-existent call / output / field / input
@@ -231,6 +247,46 @@ func (g *c07Gen) ref(t *c17Ty) *c07Exp {
 		return nil
 	}
 	return g.env.cands[g.rng.Intn(len(g.env.cands))].e
+}
+
+func c07BaseName(t *c17Ty) string {
+	for t.kind == 'a' || t.kind == 'm' {
+		t = t.elem
+	}
+	return t.name
+}
+
+// a value inside an untyped map literal: anything goes, except that no
+// reference may occur at any depth
+func (g *c07Gen) untyped(depth int) *c07Exp {
+	switch g.rng.Intn(7) {
+	case 0:
+		if depth < 3 {
+			e := c07Arr()
+			for i, n := 0, g.rng.Intn(3); i < n; i++ {
+				e.elems = append(e.elems, g.untyped(depth+1))
+			}
+			return e
+		}
+	case 1:
+		if depth < 3 {
+			e := &c07Exp{kind: 'm'}
+			if g.rng.Intn(3) == 0 {
+				e.kind = 'S'
+			}
+			for i, n := 0, 1+g.rng.Intn(2); i < n; i++ {
+				e.keys = append(e.keys, fmt.Sprintf("j%d", i))
+				e.elems = append(e.elems, g.untyped(depth+1))
+			}
+			return e
+		}
+	case 2:
+		if g.miss > 0 && g.rng.Intn(3) == 0 && len(g.env.cands) > 0 {
+			g.nestedRef = true
+			return g.env.cands[g.rng.Intn(len(g.env.cands))].e
+		}
+	}
+	return g.scalarOfKind(g.rng.Intn(5))
 }
 
 func (g *c07Gen) scalarOfKind(k int) *c07Exp {
@@ -338,18 +394,7 @@ func (g *c07Gen) exp(t *c17Ty, depth int) *c07Exp {
 	n := g.rng.Intn(3)
 	for i := 0; i < n; i++ {
 		e.keys = append(e.keys, fmt.Sprintf("k%d", i))
-		switch g.rng.Intn(4) {
-		case 0:
-			e.elems = append(e.elems, c07Arr(g.scalarOfKind(g.rng.Intn(5))))
-		case 1:
-			if r := g.ref(c07B("int")); r != nil && g.near() {
-				e.elems = append(e.elems, r) // references are not allowed inside untyped maps
-				continue
-			}
-			fallthrough
-		default:
-			e.elems = append(e.elems, g.scalarOfKind(g.rng.Intn(5)))
-		}
+		e.elems = append(e.elems, g.untyped(1))
 	}
 	return e
 }
@@ -522,10 +567,21 @@ func c07GenCase(c *Ctx, env *c07Env) *c07Case {
 		}
 	}
 	cs.mapped = false
+	nsplit := 0
 	for _, b := range cs.binds {
 		if b.b.split {
 			cs.mapped = true
+			nsplit++
 		}
+	}
+	if g.nestedRef {
+		c.Res.hist("gen_ref_nested_in_untyped_map")
+	}
+	if g.sameBaseRef {
+		c.Res.hist("gen_ref_same_base_other_nesting")
+	}
+	if nsplit >= 3 {
+		c.Res.hist("gen_three_or_more_splits")
 	}
 	return cs
 }
@@ -645,6 +701,162 @@ func c07ShrinkCase(c *Ctx, cs *c07Case) *c07Case {
 	return cur
 }
 
+// c07JudgeCase compares the model and the real compiler on one call; class
+// names the targeted stream ("" = the random stream).  Returns the verdict and
+// whether the call was accepted by both.
+func c07JudgeCase(c *Ctx, cs *c07Case, class string) (*c07Verdict, bool) {
+	r := c.Res
+	v := c07Evaluate(c, cs)
+	implAccept := v.implErr == nil
+	nontriv := cs.mapped
+	for _, b := range cs.binds {
+		if b.b.e.hasRef() || len(b.b.e.elems) > 0 {
+			nontriv = true
+		}
+	}
+	suffix := ""
+	if class != "" {
+		suffix = ":" + class
+		r.hist("stream_" + class)
+		r.hist(fmt.Sprintf("stream_%s_model=%v", class, v.accept))
+	}
+	r.count(v.src, nontriv)
+	r.hist(fmt.Sprintf("call_model=%v_impl=%v", v.accept, implAccept))
+	if cs.mapped {
+		r.hist("call_mapped")
+	}
+	if v.implErr != nil && strings.HasPrefix(v.implErr.Error(), "PANIC") {
+		r.violate(Violation{Kind: "property", Key: "C07:compiler-panic" + suffix, What: "the compiler panics on a generated call: " + firstLine(v.implErr.Error()), Input: cs.describe(v)})
+		return v, false
+	}
+	if v.accept != implAccept {
+		small := c07ShrinkCase(c, cs)
+		sv := c07Evaluate(c, small)
+		r.violate(Violation{Kind: "correspondence", Key: fmt.Sprintf("C07:corr:call:model=%v,impl=%v%s", sv.accept, sv.implErr == nil, suffix),
+			What:  "the model's checkCall and the real compiler disagree on accepting a call",
+			Input: small.describe(sv), Model: sv.accept, Impl: sv.implErr == nil, Broken: "correspondence validCall ~ BindStms.compile/IsValidExpression"})
+		if sv.implErr == nil && !sv.accept {
+			// the model calls it ill-typed and the compiler accepts it: does invoking it fail?
+			if top, ok := small.topCall(""); ok {
+				if err := c07CallGraph(sv.src + top); err != nil {
+					r.violate(Violation{Kind: "property", Key: "C07:ill-typed-accepted:callgraph-fails" + suffix,
+						What:  "the compiler accepts a call the typing model rejects, and invoking the pipeline then fails: " + firstLine(err.Error()),
+						Input: map[string]interface{}{"program": sv.src + top, "error": err.Error(), "model_binding_ok": sv.bindOk}})
+				}
+			}
+		}
+		return v, false
+	}
+	if !implAccept {
+		// location: the error must name the line of a binding the model rejects, or the call
+		expect := map[int]bool{v.call: true}
+		allOk := true
+		for j, ok := range v.bindOk {
+			if !ok {
+				expect[v.lines[j]] = true
+				allOk = false
+			}
+		}
+		if allOk { // call-level problem (missing / duplicate / inconsistent split): anywhere in the call
+			for _, l := range v.lines {
+				expect[l] = true
+			}
+			expect[v.call+len(v.lines)+1] = true
+		}
+		got := c07ErrLines(v.implErr)
+		hit := false
+		for l := range got {
+			if expect[l] {
+				hit = true
+			}
+		}
+		if !hit {
+			r.violate(Violation{Kind: "property", Key: "C07:location:generated-call" + suffix,
+				What:  "the compile error of a rejected call does not name the line of an offending binding or of the call",
+				Input: cs.describe(v), Expect: fmt.Sprint(c07SortedLines(expect)), Impl: fmt.Sprint(c07SortedLines(got))})
+		}
+		return v, false
+	}
+	// accepted by both: invoking the pipeline (call-graph resolution, what mrp does
+	// at start-up) must succeed too
+	if top, ok := cs.topCall(v.shape); ok {
+		r.hist("callgraph_checked")
+		if err := c07CallGraph(v.src + top); err != nil {
+			r.violate(Violation{Kind: "property", Key: "C07:accepted-but-callgraph-fails" + suffix,
+				What:  "a call the compiler accepts cannot be resolved when the pipeline is invoked: " + firstLine(err.Error()),
+				Input: map[string]interface{}{"program": v.src + top, "error": err.Error()}})
+			return v, false
+		}
+	}
+	return v, true
+}
+
+// topCall: a top-level invocation of P with type-conforming, non-null inputs.
+// Inputs a call is split over get the length / keys of the merged split shape.
+// Not produced when some input is split over through a projection (the shape of
+// the value cannot be chosen independently then).
+func (cs *c07Case) topCall(shape string) (string, bool) {
+	splitOver := map[string]bool{}
+	for _, b := range cs.binds {
+		if b.b.split && b.b.e.kind == 'r' {
+			if len(b.b.e.path) > 0 {
+				return "", false
+			}
+			splitOver[b.b.e.id] = true
+		}
+	}
+	var sb strings.Builder
+	sb.WriteString("\ncall P(\n")
+	for _, s := range cs.env.selfs {
+		w := c07Witness(s.t)
+		if splitOver[s.id] && (s.t.kind == 'a' || s.t.kind == 'm') {
+			f := strings.Fields(shape)
+			n, keys := 2, []string{"ka", "kb"}
+			if len(f) == 2 && f[0] == "A" && f[1] != "?" {
+				fmt.Sscan(f[1], &n)
+			}
+			if len(f) == 2 && f[0] == "K" && f[1] != "?" {
+				keys = nil
+				if f[1] != "." {
+					for _, k := range strings.Split(f[1], ",") {
+						keys = append(keys, unhx(k))
+					}
+				}
+			}
+			el := c07Witness(s.t.elem)
+			if s.t.kind == 'a' {
+				w = c07Arr()
+				for i := 0; i < n; i++ {
+					w.elems = append(w.elems, el)
+				}
+			} else {
+				w = &c07Exp{kind: 'm'}
+				for _, k := range keys {
+					w.keys = append(w.keys, k)
+					w.elems = append(w.elems, el)
+				}
+			}
+		}
+		fmt.Fprintf(&sb, "    %s = %s,\n", s.id, w.mro())
+	}
+	sb.WriteString(")\n")
+	return sb.String(), true
+}
+
+func c07CallGraph(src string) (err error) {
+	defer func() {
+		if p := recover(); p != nil {
+			err = fmt.Errorf("PANIC: %v", p)
+		}
+	}()
+	_, _, ast, err := syntax.ParseSourceBytes([]byte(src), "pipeline.mro", nil, false)
+	if err != nil {
+		return fmt.Errorf("with the top-level call the program no longer compiles: %v", err)
+	}
+	_, err = ast.MakePipelineCallGraph("ID.ps.", ast.Call)
+	return err
+}
+
 func c07PairCorrespondence(c *Ctx, n int) {
 	r := c.Res
 	var env *c07Env
@@ -660,63 +872,12 @@ func c07PairCorrespondence(c *Ctx, n int) {
 			env = c07NewEnv(c)
 		}
 		cs := c07GenCase(c, env)
-		v := c07Evaluate(c, cs)
-		implAccept := v.implErr == nil
-		nontriv := cs.mapped
-		for _, b := range cs.binds {
-			if b.b.e.hasRef() || len(b.b.e.elems) > 0 {
-				nontriv = true
-			}
-		}
-		r.count(v.src, nontriv)
-		r.hist(fmt.Sprintf("call_model=%v_impl=%v", v.accept, implAccept))
-		if cs.mapped {
-			r.hist("call_mapped")
-		}
-		if v.implErr != nil && strings.HasPrefix(v.implErr.Error(), "PANIC") {
-			r.violate(Violation{Kind: "property", Key: "C07:compiler-panic", What: "the compiler panics on a generated call: " + firstLine(v.implErr.Error()), Input: cs.describe(v)})
+		v, ok := c07JudgeCase(c, cs, "")
+		if !ok {
 			continue
 		}
-		if v.accept != implAccept {
-			small := c07ShrinkCase(c, cs)
-			sv := c07Evaluate(c, small)
-			r.violate(Violation{Kind: "correspondence", Key: fmt.Sprintf("C07:corr:call:model=%v,impl=%v", sv.accept, sv.implErr == nil),
-				What:  "the model's checkCall and the real compiler disagree on accepting a call",
-				Input: small.describe(sv), Model: sv.accept, Impl: sv.implErr == nil, Broken: "correspondence validCall ~ BindStms.compile/IsValidExpression"})
-			continue
-		}
-		if len(r.Samples) < 6 && nontriv && i%97 == 0 {
+		if len(r.Samples) < 6 && i%97 == 0 {
 			r.sample(cs.describe(v))
-		}
-		if !implAccept {
-			// location: the error must name the line of a binding the model rejects, or the call
-			expect := map[int]bool{v.call: true}
-			allOk := true
-			for j, ok := range v.bindOk {
-				if !ok {
-					expect[v.lines[j]] = true
-					allOk = false
-				}
-			}
-			if allOk { // call-level problem (missing / duplicate / inconsistent split): anywhere in the call
-				for _, l := range v.lines {
-					expect[l] = true
-				}
-				expect[v.call+len(v.lines)+1] = true
-			}
-			got := c07ErrLines(v.implErr)
-			hit := false
-			for l := range got {
-				if expect[l] {
-					hit = true
-				}
-			}
-			if !hit {
-				r.violate(Violation{Kind: "property", Key: "C07:location:generated-call",
-					What:  "the compile error of a rejected call does not name the line of an offending binding or of the call",
-					Input: cs.describe(v), Expect: fmt.Sprint(c07SortedLines(expect)), Impl: fmt.Sprint(c07SortedLines(got))})
-			}
-			continue
 		}
 		// accepted: literal delivery monitor
 		for j, b := range cs.binds {
